@@ -385,6 +385,10 @@ func child(name, outPath string) {
 		}
 	}
 
+	if strings.HasPrefix(name, "core_") {
+		scalarFaults(name, env, srv, cr, count)
+	}
+
 	// the process must still serve after all of that
 	op, doc, _ := diffrun.GenValid(env.Schema, 424242, ast.Query, opgen.Config{MaxDepth: 2})
 	if doc != nil {
